@@ -39,6 +39,21 @@ def check_layouts(ctx):
     for side in ("dom", "cod"):
         shape.match(ctx, "R12.1", "%s.CQMap.__init__:u%s" % (CQ, side), loc.get("u" + side), "%s.classical @ %s.quantum @ %s.quantum" % ((side,) * 3), {}, mod=CQ, node=fn,
                     sig="u" + side, required="one wire per classical digit, two per quantum digit: c · q · q")
+    sup = next((c for c in ast.walk(fn) if isinstance(c, ast.Call) and ast.unparse(c.func) == "super().__init__"), None)
+    shape.match(ctx, "R12.1", CQ + ".CQMap.__init__:tensor", sup, "super().__init__(udom, ucod, utensor.array if array is None else array)", {}, mod=CQ, node=fn, sig="init-tensor",
+                required="the underlying tensor goes from the doubled domain to the doubled codomain (the array is laid out domain first)")
+    fields = []
+    for st in fn.body:           # field assignments, one per statement (the values are plain parameters / locals: order is immaterial)
+        if isinstance(st, ast.Assign) and isinstance(st.targets[0], ast.Tuple) and isinstance(st.value, ast.Tuple) and len(st.targets[0].elts) == len(st.value.elts) \
+                and all(isinstance(v, ast.Name) for v in st.value.elts):
+            fields += [ast.Assign(targets=[t], value=v, lineno=st.lineno) for t, v in zip(st.targets[0].elts, st.value.elts)]
+        elif isinstance(st, ast.Assign) and isinstance(st.targets[0], ast.Attribute):
+            fields.append(st)
+    shape.match_stmts(ctx, "R12.1", CQ + ".CQMap.__init__:fields", fields,
+                      ["self._dom = dom", "self._cod = cod", "self._udom = udom", "self._ucod = ucod"], mod=CQ, node=fn, sig="init-fields", required="dom / cod are the CQ types given, _udom / _ucod their doubled layouts")
+    ut = m.func(CQ + ".CQMap.utensor")
+    ctx.analysed(CQ + ".CQMap.utensor")
+    shape.match(ctx, "R12.1", CQ + ".CQMap.utensor", ret_expr(ut.body), "Tensor(self._udom, self._ucod, self.array)", {}, mod=CQ, node=ut, sig="utensor")
     fn = m.func(CQ + ".CQMap.pure")
     ctx.analysed(CQ + ".CQMap.pure", CQ + ".CQMap.classical", CQ + ".CQMap.discard", CQ + ".CQMap.measure", CQ + ".CQMap.encode")
     shape.match(ctx, "R12.1", CQ + ".CQMap.pure", ret_expr(fn.body), "CQMap(Q(utensor.dom), Q(utensor.cod), (utensor.conjugate() @ utensor).array)", {}, mod=CQ, node=fn, sig="pure",
@@ -186,6 +201,18 @@ def check_dispatch(ctx):
     body = b.body
     first = next((s.value for s in body if isinstance(s, ast.Assign)), None)
     shape.match(ctx, "R12.3", q + ":Measure", first, "CQMap.measure(F(box.dom).quantum, destructive=box.destructive)", N, mod=CQ, node=b.node, sig="measure")
+    # measurements that overwrite bits: the old bits are discarded exactly then (the classical input is empty otherwise)
+    assigns = [s for s in body if isinstance(s, ast.Assign) and len(s.targets) == 1 and isinstance(s.targets[0], ast.Name)]
+    ret = ret_expr(body)
+    if len(assigns) == 2 and isinstance(ret, ast.Name) and assigns[0].targets[0].id == assigns[1].targets[0].id == ret.id:
+        N2 = dict(N)
+        N2[ret.id] = "measure"
+        shape.match(ctx, "R12.3", q + ":Measure:override", assigns[1].value, ["measure @ CQMap.discard(C(F(box.dom).classical)) if box.override_bits else measure"], N2, mod=CQ, node=assigns[1], sig="measure-override",
+                    required="tensored with the discarding of the bits of the domain exactly when the measurement overwrites them")
+    else:
+        shape.match(ctx, "R12.3", q + ":Measure:override", ret, ["CQMap.measure(F(box.dom).quantum, destructive=box.destructive) @ CQMap.discard(C(F(box.dom).classical)) if box.override_bits else CQMap.measure(F(box.dom).quantum, destructive=box.destructive)",
+                                                                  "CQMap.measure(F(box.dom).quantum, destructive=box.destructive) @ CQMap.discard(C(F(box.dom).classical))"], N, body=body, mod=CQ, node=b.node, sig="measure-override",
+                    required="tensored with the discarding of the bits of the domain exactly when the measurement overwrites them")
     # total over the mixed classes of circuit.py
     mixed = [c for c in m.classes.values() if c.mod == CIRC and m.cls(CIRC + ".Box") in m.mro(c) and c.name in ("Discard", "MixedState", "Measure", "Encode")]
     handled = {nm for x in br for nm in x.names}
@@ -298,6 +325,18 @@ def check_circuit_side(ctx):
     fn = m.func(CIRC + ".Circuit.measure")
     mb = next((s for s in fn.body if isinstance(s, ast.If) and ast.unparse(s.test) == "mixed or self.is_mixed"), None)
     shape.match(ctx, "R12.6", CIRC + ".Circuit.measure:mixed", ret_expr(mb.body) if mb else None, "self.init_and_discard().eval(mixed=True).array.real", {}, mod=CIRC, node=fn, sig="measure-mixed")
+    # pure branch: the Born rule computed amplitude by amplitude
+    rest = [s for s in fn.body if s is not mb and not isinstance(s, (ast.Import, ast.ImportFrom)) and not (isinstance(s, ast.Expr) and isinstance(s.value, ast.Constant))]
+    shape.match_stmts(ctx, "R12.6", CIRC + ".Circuit.measure:pure", [s for s in rest if isinstance(s, ast.Assign)],
+                      ["state = (Ket(*len(self.dom) * [0]) >> self).eval()", "effects = [Bra(*index2bitstring(j, len(self.cod))).eval() for j in range(2 ** len(self.cod))]",
+                       "array = Tensor.np.zeros(len(self.cod) * (2,) or (1,))"], mod=CIRC, node=fn, sig="measure-pure",
+                      required="the state from all-zero inputs; one effect per bitstring of the length of the codomain; an accumulator with one axis per output")
+    lp = next((s for s in rest if isinstance(s, ast.For)), None)
+    ctx.need(lp is not None and isinstance(lp.target, ast.Name), "Circuit.measure: no loop over the effects")
+    shape.match(ctx, "R12.6", CIRC + ".Circuit.measure:pure:effects", lp.iter, "effects", {}, mod=CIRC, node=lp, sig="measure-pure-loop")
+    shape.match_stmts(ctx, "R12.6", CIRC + ".Circuit.measure:pure:born", lp.body, ["array += effect.array * Tensor.np.absolute((state >> effect).array) ** 2"], {lp.target.id: "effect"}, mod=CIRC, node=lp,
+                      sig="measure-born", exact=True, required="each outcome weighted by the squared magnitude of its amplitude")
+    shape.match(ctx, "R12.6", CIRC + ".Circuit.measure:pure:result", ret_expr(rest), "array", {}, mod=CIRC, node=fn, sig="measure-pure-result")
     fn = m.func(CIRC + ".Circuit.init_and_discard")
     src = ast.unparse(fn)
     ok = "Bits(0) if x.name == 'bit' else Ket(0) for x in circuit.dom" in src and "circuit = init >> circuit" in src and \
@@ -309,6 +348,40 @@ def check_circuit_side(ctx):
     shape.match(ctx, "R12.6", CIRC + ".Circuit.is_mixed", r, "self.dom.count(bit) and self.dom.count(qubit) or any((layer.cod.count(bit) and layer.cod.count(qubit) for layer in self.layers)) "
                 "or any((box.is_mixed for box in self.boxes))", {}, body=fn.body, mod=CIRC, node=fn, sig="is-mixed",
                 required="mixed as soon as one box is mixed or bits and qubits coexist on the domain or after any layer")
+    # is_mixed (and the export of C13) count bits and qubits with Ty.count: the occurrences of the object of a one-wire type, or of an object
+    from ..fold import fold as ffold, CannotFold, Stub, bind
+    MON = "discopy.monoidal"
+    tc = m.func(MON + ".Ty.count")
+    ctx.analysed(MON + ".Ty.count")
+
+    class TyV(tuple):
+        pass
+    self_c, obj_c = (a.arg for a in tc.args.args[:2])
+    badc = []
+    try:
+        for objects in ((), ("a",), ("a", "b", "a"), ("b", "b")):
+            for arg, want in ((TyV(("a",)), objects.count("a")), ("a", objects.count("a")), (TyV(("b",)), objects.count("b")), ("c", 0)):
+                env_ = {self_c: Stub(_objects=objects, objects=list(objects)), obj_c: arg, "Ty": TyV, "isinstance": isinstance, "len": len, "sum": sum, "list": list, "tuple": tuple, "int": int}
+                got = None
+                try:
+                    for st in tc.body:
+                        if isinstance(st, ast.Expr) and isinstance(st.value, ast.Constant):
+                            continue
+                        if isinstance(st, ast.Assign) and len(st.targets) == 1:
+                            bind(st.targets[0], ffold(st.value, env_), env_)
+                        elif isinstance(st, ast.Return):
+                            got = ffold(st.value, env_)
+                            break
+                        else:
+                            raise CannotFold("statement %s" % ast.unparse(st)[:40])
+                except (ValueError, TypeError, IndexError, KeyError) as e:
+                    got = "raises %s" % type(e).__name__
+                if got != want:
+                    badc.append("Ty%s.count(%s) = %s, not %s" % (objects, "Ty%s" % (tuple(arg),) if isinstance(arg, TyV) else arg, got, want))
+    except CannotFold as e:
+        raise AnalysisError("Ty.count cannot be folded: %s" % e)
+    ctx.ob("R12.6", MON + ".Ty.count", not badc, found=badc[:2] or "the number of occurrences, for objects and for one-wire types", required="count(x) = number of wires equal to x (x an object or a type of one wire)",
+           mod=MON, node=tc, sig="ty-count")
     # get_counts and measure enumerate the outcomes through index2bitstring: every bitstring of the right length exactly once
     from ..fold import fold as ffold, CannotFold
     import itertools as _it
